@@ -17,13 +17,17 @@ import (
 // c07Exec is a GraphExecutor fake: it records the parameters each request
 // presents and answers with an arbitrary outcome.
 type c07Exec struct {
-	outcome int // 0 ok, 1 CreateOperationContext rejects, 2 DispatchOperation panics, 3 CreateOperationContext panics
-	seen    []graphql.RawParams
+	outcome  int // 0 ok, 1 CreateOperationContext rejects, 2 DispatchOperation panics, 3 CreateOperationContext panics
+	seen     []graphql.RawParams
+	onCreate func(p *graphql.RawParams)
 }
 
 func (e *c07Exec) CreateOperationContext(ctx context.Context, params *graphql.RawParams) (*graphql.OperationContext, gqlerror.List) {
 	cp := *params
 	e.seen = append(e.seen, cp)
+	if e.onCreate != nil {
+		e.onCreate(params)
+	}
 	switch e.outcome {
 	case 1:
 		return &graphql.OperationContext{}, gqlerror.List{gqlerror.Errorf("rejected")}
